@@ -206,14 +206,27 @@ func TestC20(t *testing.T) {
 		for i, op := range hc.Ops {
 			var release func()
 			if smallPool && (op.Kind == "realloc" || op.Kind == "set-node") && hc.Saturate[i%len(hc.Saturate)] {
+				// nothing of the previous operation may still be on its way to the pool: a remap task that was
+				// submitted but has not run yet is invisible to the quiescence test, and if it starts after the pool
+				// was filled its inner task is refused and core leaves it waiting forever (holding the node-operation lock)
 				w.cl.WaitQuiet(quietPatience)
+				time.Sleep(400 * time.Millisecond)
+				if !w.cl.WaitQuiet(quietPatience) {
+					rec.Count("histories_abandoned_cluster_not_quiet", 1)
+					return
+				}
 				release = saturate()
 				rec.Count("ops_under_saturated_pool/"+op.Kind, 1)
 			}
 			res := w.exec(op, nil)
 			if release != nil {
 				release()
-				w.cl.WaitQuiet(quietPatience)
+				if !w.cl.WaitQuiet(quietPatience) {
+					// a lock is still held although nothing runs: the remap got stuck (see above); the rest of this history
+					// would only burn the patience of every wait - it is abandoned, the lock order seen so far was judged
+					rec.Count("histories_abandoned_cluster_not_quiet", 1)
+					return
+				}
 			}
 			rec.Count("ops/"+op.Kind, 1)
 			if res.TimedOut {
